@@ -59,7 +59,7 @@ func banner(r *rand.Rand, nl string, lines int) []peer.Tok {
 func genC10(seed uint64, run int, tier string) Scenario {
 	rs := kernel.RunSeed(seed, "C10", run)
 	r := kernel.Stream(rs, "scenario")
-	sc := &Session{Prop: "C10", Log: true}
+	sc := &Session{Prop: "C10"}
 	genSched(kernel.Stream(rs, "sched"), &sc.Common)
 	rd := genReadDelay(r)
 	sc.ReadDelayUS = int64(rd / time.Microsecond)
@@ -287,7 +287,9 @@ func runC10(env *Env, s Scenario) {
 	if n := len(sc.Plan.Asks); n > 2 {
 		env.Fault("peer-reject-login", 1)
 	}
-	checkSecrets(env, sr, []string{sc.Password, sc.Passphrase})
+	if sc.Prop == "C11" {
+		checkSecrets(env, sr, []string{sc.Password, sc.Passphrase})
+	}
 	if out.Hang {
 		env.Fail("hang", hangSite(sr), "workload did not finish before the fake deadline\n%s", out.HangDump)
 
